@@ -9,9 +9,9 @@
     betaln is the log beta function).
     NOT PROVED (no formal digamma / trigamma / incomplete gamma here): "near machine precision" of
     the asymptotic series, the mean-log match of the KL fit up to its Newton tolerance, convergence
-    of the Newton iterations, and everything about approximate_gamma_iqr (not translated: its
-    Newton loop runs over scipy's gammaincinv).  Those clauses are decided by the oracle of
-    tools/props/c19.py against mpmath / scipy references. *)
+    of the Newton iterations of both fits, and that the quantile fit matches the requested quantile
+    RATIO (needs the derivative of the incomplete gamma).  Those clauses are decided by the oracle
+    of tools/props/c19.py against mpmath / scipy references. *)
 From Coq Require Import Reals Lra.
 From TsdateV Require Import lib.Num model.ApproxBase gen.HypergeoGen gen.ApproxGen gen.GenEqC19
   proofs.ApproxTac proofs.ApproxC18 proofs.ApproxC19.
@@ -51,6 +51,35 @@ Proof.
     conj (kl_ok lgam eg H x logx) (conj (kl_fail lgam eg H x logx) (kl_asymptotic lgam eg H x logx))).
 Qed.
 Print Assumptions C19_kl_mean_exact_partial.
+
+(** quantile fit (C19_iqr_control of DESIGN.md).  [E] = (scipy's gammaincinv, the AS 239 derivative)
+    and [H] are ARBITRARY functions: whatever the Newton iteration does, a successful return has a
+    shape <= cap -- either the capped shape itself or a positive shape -- and the rate
+    gammaincinv(shape, q1) / x1, so that, the two incomplete-gamma functions being mutually
+    inverse, the LOWER quantile of the returned gamma is the requested one; equal quantiles and a
+    log-ratio bound above the cap give the capped shape at once; unsorted quantiles raise.
+    Not proved: that the requested quantile RATIO is matched when the shape is not capped. *)
+Theorem C19_iqr_control : forall (lgam : R -> R) (eg : R) (H : HypFns RNum) (E : ExtFns RNum)
+    (q1 q2 x1 x2 cap : R),
+  let F := RF lgam eg in
+  let ginv := e_gammainc_inv RNum E in
+  (forall a b, approximate_gamma_iqr RNum F H E q1 q2 x1 x2 cap = Ok (a, b) ->
+     (a = cap - 1 /\ b = ginv cap q1 / x1) \/ (0 < a + 1 /\ a + 1 <= cap /\ b = ginv (a + 1) q1 / x1)) /\
+  (forall (ginc : R -> R -> R) a b, (forall s q, ginc s (ginv s q) = q) -> x1 <> 0 ->
+     approximate_gamma_iqr RNum F H E q1 q2 x1 x2 cap = Ok (a, b) ->
+     a + 1 <= cap /\ ginc (a + 1) (b * x1) = q1) /\
+  (approximate_gamma_iqr RNum F H E q1 q2 x1 x1 cap = Ok (cap - 1, ginv cap q1 / x1)) /\
+  (x2 <> x1 -> ~ (q1 < q2 /\ x1 < x2) -> approximate_gamma_iqr RNum F H E q1 q2 x1 x2 cap = Err EKLFail) /\
+  (q1 < q2 -> x1 < x2 -> cap < ln (q2 / q1) / ln (x2 / x1) ->
+     approximate_gamma_iqr RNum F H E q1 q2 x1 x2 cap = Ok (cap - 1, ginv cap q1 / x1)).
+Proof.
+  exact (fun lgam eg H E q1 q2 x1 x2 cap =>
+    conj (iqr_ok lgam eg H E q1 q2 x1 x2 cap)
+   (conj (fun ginc a b => iqr_lower_quantile lgam eg H E ginc q1 q2 x1 x2 cap a b)
+   (conj (iqr_equal lgam eg H E q1 q2 x1 cap)
+   (conj (iqr_unsorted lgam eg H E q1 q2 x1 x2 cap) (iqr_capped_at_once lgam eg H E q1 q2 x1 x2 cap))))).
+Qed.
+Print Assumptions C19_iqr_control.
 
 (** digamma: IF the series branch (x >= 8.5) and the pole branch (0 < x <= 1e-5) are exact for a
     function [psi] with psi(1+x) = psi(x) + 1/x, THEN the code returns psi(x) for every x > 0 (the
